@@ -348,6 +348,7 @@ class TracerReplayer:
         return "%s %s [program ops %s; after %s]" % (s, clause, ",".join(ops), ">".join(prev) or "recording")
 
 
+UNSUPPORTED = set()   # programs whose reverse sweep raised NotImplementedError (accepted, reported in evidence)
 TRACES = []          # (name, events) recorded in-process under the probe, validated against TraceTracer.tla by the checks
 
 
@@ -663,6 +664,32 @@ def full_api_adjoint(rep, seed, n=80):
             ("eig_values", lambda x: algopy.sum(algopy.real(algopy.eig(algopy.reshape(x, (2, 2)) + numpy.array([[3., 1.], [0.5, -1.]]))[0]) * W2)),
             ("lu_factors", lambda x: (lambda WLU: algopy.sum(WLU[1] * W22) + algopy.sum(WLU[2] * W22.T))(algopy.lu(algopy.reshape(x, (2, 2)) + numpy.array([[0.1, 2.], [3., 0.2]])))),
             ("cholesky_solve", lambda x: (lambda A: algopy.sum(algopy.solve(algopy.cholesky(algopy.dot(A, A.T) + numpy.array([[3., 1.], [1., 4.]])), A) * W22))(algopy.reshape(x, (2, 2)))),
+            ("qr_tall", lambda x: (lambda QR: algopy.sum(QR[1] * numpy.array([[1., 2.], [0., 3.]])) + algopy.sum(QR[0] * numpy.arange(1., 7.).reshape(3, 2)))(algopy.qr(algopy.reshape(algopy.tile(x, 2)[:6], (3, 2)) + numpy.array([[2., 0.], [0., 3.], [1., 1.]])))),
+            ("qr_wide", lambda x: (lambda QR: algopy.sum(QR[1] * numpy.arange(1., 7.).reshape(2, 3)))(algopy.qr(algopy.reshape(algopy.tile(x, 2)[:6], (2, 3)) + numpy.array([[2., 0., 1.], [0., 3., 1.]])))),
+            ("qr_full", lambda x: (lambda QR: algopy.sum(QR[1] * numpy.arange(1., 7.).reshape(3, 2)))(algopy.qr_full(algopy.reshape(algopy.tile(x, 2)[:6], (3, 2)) + numpy.array([[2., 0.], [0., 3.], [1., 1.]])))),
+            ("solve_const_rhs", lambda x: algopy.sum(algopy.solve(algopy.reshape(x, (2, 2)) + A0, W22) * W22.T)),
+            ("solve_const_matrix", lambda x: algopy.sum(algopy.solve(A0, algopy.reshape(x * x, (2, 2))) * W22.T)),
+            ("inv_nonsymmetric", lambda x: algopy.sum(algopy.inv(algopy.reshape(x, (2, 2)) * numpy.array([[1., 2.], [-1., 1.]]) + numpy.array([[3., 1.], [-1., 2.]])) * W22)),
+            ("logdet_negative_det", lambda x: algopy.logdet(algopy.reshape(x, (2, 2)) * 0.1 + numpy.array([[0., 2.], [3., 0.]])) * algopy.sum(x)),
+            ("trace_of_product", lambda x: algopy.trace(algopy.dot(algopy.reshape(x, (2, 2)).T, algopy.reshape(x * x, (2, 2))))),
+            ("symvec_L", lambda x: (lambda A: algopy.sum(algopy.symvec(A, 'L') * numpy.array([1., 2., 3.])))(algopy.reshape(x * x, (2, 2)))),
+            ("symvec_U", lambda x: (lambda A: algopy.sum(algopy.symvec(A, 'U') * numpy.array([1., 2., 3.])))(algopy.reshape(x * x, (2, 2)))),
+            ("vecsym", lambda x: algopy.sum(algopy.dot(algopy.vecsym(x[:3] * x[1:]), algopy.vecsym(x[:3])) * W22)),
+            ("sum_negative_axis", lambda x: algopy.sum(algopy.sum(algopy.reshape(x * x, (2, 2)), axis=-2) * W2)),
+            ("tile_2d", lambda x: algopy.sum(algopy.tile(algopy.reshape(x * x, (2, 2)), (2, 1)) * numpy.arange(1., 9.).reshape(4, 2))),
+            ("fft_axis0", lambda x: algopy.sum(algopy.real(algopy.fft.ifft(algopy.fft.fft(algopy.reshape(x * x, (2, 2)), axis=0) * W22, axis=0)) * W22.T)),
+            ("imag_of_fft", lambda x: algopy.sum(algopy.imag(algopy.fft.fft(x * x)) * numpy.array([1., 2., 3., 4.]))),
+            ("conjugate_fft", lambda x: algopy.sum(algopy.real(algopy.conjugate(algopy.fft.fft(x * x)) * algopy.fft.fft(x)) * numpy.array([1., 2., 3., 4.]))),
+            ("getitem_newaxis", lambda x: algopy.sum(x[None, :] * numpy.array([[1., 2., 3., 4.], [0., 1., 0., 2.]]) * x[::-1][None])),
+            ("setitem_slices", lambda x: T_setslices(algopy, x)),
+            ("reciprocal_square", lambda x: algopy.sum(algopy.reciprocal(algopy.square(x) + 1.) * algopy.absolute(x - 0.75))),
+            ("expm1_log1p", lambda x: algopy.sum(algopy.expm1(x) * algopy.log1p(x))),
+            ("negative_sign", lambda x: algopy.sum(algopy.negative(x) * algopy.sign(x - 0.75) * x)),
+            ("special2", lambda x: algopy.sum(algopy.special.gammaln(x + 1.) * algopy.special.psi(x + 0.5) + algopy.special.erfi(x * 0.5) + algopy.special.logit(x * 0.5))),
+            ("polygamma_hyperu", lambda x: algopy.sum(algopy.special.polygamma(1, x + 0.5) + algopy.special.hyperu(1., 1.5, x + 0.5))),
+            ("botched_clip", lambda x: algopy.sum(algopy.special.botched_clip(0.5, 1.0, x) * x)),
+            ("div_bcast_cols", lambda x: algopy.sum(algopy.reshape(x, (2, 2)) / (algopy.reshape(x, (2, 2))[:, 0:1] + 2.))),
+            ("transposed_operands", lambda x: algopy.sum((algopy.reshape(x, (2, 2)).T * algopy.reshape(x * x, (2, 2))) / (algopy.reshape(x, (2, 2)).T + 2.))),
             ("dot_mv", lambda x: algopy.sum(algopy.dot(algopy.reshape(x, (2, 2)), x[:2] * x[:2]) * W2)),
             ("dot_vm", lambda x: algopy.sum(algopy.dot(x[:2] * x[:2], algopy.reshape(x, (2, 2))) * W2)),
             ("reshape_noncontiguous", lambda x: algopy.sum(algopy.reshape(algopy.reshape(x * x, (2, 2)).T, (4,)) * numpy.array([1., 2., 3., 4.]))),
@@ -728,10 +755,22 @@ def full_api_adjoint(rep, seed, n=80):
         except StopIteration:
             pass
         except NotImplementedError as ex:
-            rep.violation(sig + " raises NotImplementedError", {"what": repr(ex)[-300:]})
+            UNSUPPORTED.add(name)          # documented: an exception instead of a wrong adjoint (C03, second sentence)
         except Exception as ex:
-            rep.violation(sig + " raises " + type(ex).__name__, {"D": D, "P": P, "what": repr(ex)[-300:]})
+            if "NotImplementedError" in repr(ex):
+                UNSUPPORTED.add(name)      # (the tracer wraps the pullback's exception)
+            else:
+                rep.violation(sig + " raises " + type(ex).__name__, {"D": D, "P": P, "what": repr(ex)[-300:]})
         probe_end(sig + " #%d" % it)
+
+
+def T_setslices(algopy, x):
+    b = algopy.zeros((2, 2), dtype=x)
+    b[0, :] = x[:2] * x[2:]
+    b[1:, 1] = x[3:] * b[0, 0]
+    b[1, 0] = algopy.sin(b[0, 1])
+    b[:, 0] = b[:, 0] * x[:2]
+    return algopy.sum(b * b)
 
 
 def T_buffer(algopy, x):
